@@ -22,6 +22,7 @@ PROBES = {
     "p8": "f > c",
     "p9": "f(a as ta)",
     "p10": ("f > a", "f(!a)"),
+    "p11": "f > $v:@T",
     "q2": "f > b",
     "bad": "f > zzz",
     "bad2": "g > #nope",
